@@ -2,7 +2,7 @@
 # seed_matrix.sh [seed...]: run the quick check of each seed's property against the seeded change
 # (in a scratch worktree of /repo, never in /repo itself) and record what was detected.
 export GOFLAGS=-mod=mod GOPROXY=off GOSUMDB=off GOTOOLCHAIN=local
-WT=/tmp/mx_repo
+WT=${WT:-/tmp/mx_repo}
 VERIF=${VERIF:-/verif}
 git -C /repo worktree remove --force $WT 2>/dev/null; git -C /repo worktree prune
 git -C /repo worktree add -q --detach $WT HEAD || exit 2
